@@ -162,10 +162,11 @@ theorem csv_ranges_tile (bytes : List Nat) (hasHeaders : Bool) (n : Nat) (_hn : 
     have := relRange_ordered (body bytes hasHeaders) n i hi
     simp only; omega
 
-/-- **Records are never split, duplicated or skipped; the header is excluded**: the byte ranges handed to
-    the per-replica `csv::Reader`s contain, concatenated in replica order, exactly the lines of the file
-    after the header — every range starts and ends at a line boundary. -/
-theorem csv_ranges_partition (bytes : List Nat) (hasHeaders : Bool) (n : Nat) (hn : 1 ≤ n) :
+/-- **Physical lines** are never split, duplicated or skipped and the first line is excluded: the byte
+    ranges handed to the per-replica `csv::Reader`s contain, concatenated in replica order, exactly the
+    lines of the file after the first line — every range starts and ends right after a `'\n'`. This is
+    all the alignment code guarantees; it is about *lines*, not about CSV *records*. -/
+theorem csv_lines_partition (bytes : List Nat) (hasHeaders : Bool) (n : Nat) (hn : 1 ≤ n) :
     (List.range n).flatMap (fun i => lines (replicaBytes bytes hasHeaders n i))
       = lines (body bytes hasHeaders) := by
   rw [← segs_all (body bytes hasHeaders) n hn]
@@ -173,15 +174,73 @@ theorem csv_ranges_partition (bytes : List Nat) (hasHeaders : Bool) (n : Nat) (h
   intro i hi
   rw [replicaBytes_eq, rel_lines _ n i (by simpa using hi)]
 
-/-- The same for records (quote-free content: a record is a non-empty line without its terminator). -/
-theorem csv_records_partition (bytes : List Nat) (hasHeaders : Bool) (n : Nat) (hn : 1 ≤ n) :
+/- Full-strength statement C15 asks for (`csv_records_partition`): for EVERY file content, with the
+   quote-aware record splitter `rawRecords` (a line terminator inside an open quote does not end a record)
+   and the quote-aware header (`specHeaderSize`):
+     `∀ bytes hasHeaders n, 1 ≤ n →
+        (List.range n).flatMap (fun i => rawRecords (replicaBytes bytes hasHeaders n i))
+          = rawRecords (bytes.drop (specHeaderSize bytes hasHeaders))`.
+   It is FALSE for the unchanged code (finding F13, `csv_quoted_newline_counterexample`): the alignment
+   (`read_until(b'\n')`, csv.rs:318-341) ignores quoting, so a range boundary can fall after a line feed
+   that lies inside a quoted field and the record is cut in two. What holds is the statement under the
+   extra hypothesis that no line terminator occurs inside quotes (every physical line of the body has an
+   even number of quote characters) — then records are lines. -/
+
+/-- "no line terminator inside quotes": every physical line closes all the quotes it opens -/
+def NoQuotedTerminator (s : List Nat) : Prop := ∀ l ∈ lines s, oddQuotes l = false
+
+/-- **Records**, partial: extra hypothesis `NoQuotedTerminator` on the part of the file after the first
+    line. Then every raw record is emitted exactly once, whole, in order, first line (= header) excluded. -/
+theorem csv_ranges_partition_partial (bytes : List Nat) (hasHeaders : Bool) (n : Nat) (hn : 1 ≤ n)
+    (hq : NoQuotedTerminator (body bytes hasHeaders)) :
+    (List.range n).flatMap (fun i => rawRecords (replicaBytes bytes hasHeaders n i))
+      = rawRecords (body bytes hasHeaders) := by
+  have hp := csv_lines_partition bytes hasHeaders n hn
+  rw [rawRecords_eq_lines _ hq, ← hp]
+  apply flatMap_congr'
+  intro i hi
+  apply rawRecords_eq_lines
+  intro l hl
+  apply hq
+  rw [← hp]
+  exact List.mem_flatMap.mpr ⟨i, hi, hl⟩
+
+/-- The same for parsed records (fields unquoted, empty lines skipped), same extra hypothesis. -/
+theorem csv_records_partition_partial (bytes : List Nat) (hasHeaders : Bool) (n : Nat) (hn : 1 ≤ n)
+    (hq : NoQuotedTerminator (body bytes hasHeaders)) :
     (List.range n).flatMap (fun i => records (replicaBytes bytes hasHeaders n i))
       = records (body bytes hasHeaders) := by
   unfold records
-  rw [← csv_ranges_partition bytes hasHeaders n hn, List.map_flatMap, List.filter_flatMap]
+  rw [← csv_ranges_partition_partial bytes hasHeaders n hn hq, filterMap_flatMap']
+
+/-- F13: the file `"aaaaaaaa\nb"\nc\nd\n` (a quoted first field containing a line feed) on 2 replicas, no
+    header: the raw range boundary 8 is aligned to offset 10 — right after the line feed *inside* the quoted
+    field — so replica 0 gets `"aaaaaaaa\n` and replica 1 gets `b"\nc\nd\n`: the pieces' records are not
+    the records of the file (the first record is cut in two). -/
+theorem csv_quoted_newline_counterexample :
+    (List.range 2).map (csvRange [34,97,97,97,97,97,97,97,97,10,98,34,10,99,10,100,10] false 2)
+        = [(0, 10), (10, 17)] ∧
+    (List.range 2).flatMap (fun i => rawRecords
+        (replicaBytes [34,97,97,97,97,97,97,97,97,10,98,34,10,99,10,100,10] false 2 i))
+      ≠ rawRecords (body [34,97,97,97,97,97,97,97,97,10,98,34,10,99,10,100,10] false) := by
+  decide
 
 /-! ### non-vacuity -/
 example : (List.range 3).map (csvRange [104,10, 97,10,98,98,13,10,10,99] true 3) = [(2, 8), (8, 8), (8, 10)] := by
   simp [csvRange, headerSize, readLine, NL, List.range, List.range.loop]
+-- a quoted field with a comma and an escaped quote, no terminator inside quotes: hypothesis holds
+example : records [120,44,34,97,34,34,98,34,10, 34,99,44,100,34,44,121,10]
+    = [[[120],[97,34,98]], [[99,44,100],[121]]] := by decide
+example : rawRecords [34,97,10,98,34,10,99,10] = [[34,97,10,98,34,10],[99,10]] := by decide
+-- the hypothesis of the `_partial` theorems is satisfiable (`"a",b` / `c`) …
+example : NoQuotedTerminator (body [34,97,34,44,98,10,99,10] false) := by
+  intro l hl
+  simp [body, headerSize, lines_eq, readLine, NL] at hl
+  rcases hl with rfl | rfl <;> decide
+-- … and fails for the F13 file (its first physical line `"aaaaaaaa\n` has an odd number of quotes)
+example : ¬ NoQuotedTerminator (body [34,97,97,97,97,97,97,97,97,10,98,34,10,99,10,100,10] false) := by
+  intro h
+  have := h [34,97,97,97,97,97,97,97,97,10] (by simp [body, headerSize, lines_eq, readLine, NL])
+  revert this; decide
 
 end Noir.CsvSplit
